@@ -116,9 +116,12 @@ def run(ctx):
     runs.append(("random", ["--mode", "random", "--scenarios", sp, "--seed", ctx.seed, "--cap", 40 if ctx.quick else 600], len(scns)))
     import time
     for mode, args, total in runs:
+        if len(rep.violations) >= 3:
+            rep.note("skipping %s: violations already found" % mode)
+            continue
         t0 = time.time()
         lp = os.path.join(ctx.work, "log_%s.ndjson" % mode)
-        sums, deaths = vlib.run_batches(ctx, exe, args, total, lp, timeout=1500)
+        sums, deaths = vlib.run_batches(ctx, exe, args, total, lp, timeout=1500, max_deaths=12)
         execs = sum(s["execs"] for s in sums)
         rep.evaluations += execs
         for s in sums:
